@@ -604,24 +604,67 @@ def generate():
         else:
             I(coq, value, f)
 
-    # ---- relay path: body-collection failure statuses, response marker (C14 / C15) ----
-    # TOLERANT like the block above: 0 / empty when the statement is no longer found.
-    whole = strip_comments(src(f))
-    sm = re.search(r"async fn handle_request_with_signature\b(.*?)\n    \}\n", whole, flags=re.S)
-    sbody = sm.group(1) if sm else ""
-    mm = re.search(r"body\.collect\(\)\.await\s*\{(?:(?!\n        \};).)*?Err\(\w+\)\s*=>(?:(?!\n        \};).)*?empty_response\(StatusCode::(\w+)\)", sbody, flags=re.S)
-    I("relay_status_body_error_signed", codes.get(mm.group(1), 0) if mm else 0, f)
-    mm = re.search(r"Self::convert_request\(proxy_request\)\.await\s*\{(?:(?!\n        \};).)*?Err\(\w+\)\s*=>(?:(?!\n        \};).)*?empty_response\(StatusCode::(\w+)\)", hbody, flags=re.S)
-    I("relay_status_body_error_exempt", codes.get(mm.group(1), 0) if mm else 0, f)
-    fm = re.search(r"async fn forward_response\b(.*?)\n    \}\n", whole, flags=re.S)
-    mm = re.search(r"HeaderName::from_static\(constants::AUTHORIZATION_HEADER\)\s*,\s*HeaderValue::from_static\(\"([^\"]*)\"\)", fm.group(1) if fm else "", flags=re.S)
-    S("response_marker_value", mm.group(1) if mm else "", f)
-    # does Client::send_request await SendRequest::ready() before send_request? (finding F12, fix commit cdcae0b)
-    # TOLERANT: 0 when the guard is not found, which breaks C14_every_request_relayed and triggers C14's search
-    cm = re.search(r"impl Client \{(.*?)\n\}\n", strip_comments(src("proxy_agent/src/proxy/proxy_connection.rs")), flags=re.S)
-    cbody = cm.group(1) if cm else ""
-    ri, si = cbody.find("self.sender.ready().await"), cbody.find("self.sender.send_request(")
-    I("upstream_waits_ready", 1 if 0 <= ri < si else 0, "proxy_agent/src/proxy/proxy_connection.rs")
+    # ---- relay path: body-collection failure statuses, response marker, readiness guard (C14 / C15) ----
+    # The VALUE is located, not the statement shape (notes/ROBUSTNESS.txt): a located value that differs breaks the
+    # theorem that mentions it; a value that cannot be located is PINNED to the value of the tree the theorems were
+    # proved against (400 / 400 / "value") and tied by the end-to-end run only.
+    whole = strip_comments(src(f)).split("#[cfg(test)]")[0]
+
+    def fn_body(name):
+        m0 = re.search(r"\bfn\s+%s\b" % name, whole)
+        if not m0:
+            return None
+        nxt = re.search(r"\n    (?:pub(?:\([a-z]+\))?\s+)?(?:async\s+)?fn\s+\w+", whole[m0.end():])
+        return whole[m0.start():m0.end() + (nxt.start() if nxt else len(whole))]
+
+    def status_after_failure(body, anchor):
+        """the StatusCode answered in the Err arm that follows the first `anchor` (a body-collecting call) in `body`"""
+        if body is None:
+            return None
+        a = re.search(anchor, body)
+        if not a:
+            return None
+        seg = body[a.start():a.start() + 1500]
+        e = re.search(r"Err\(\w+\)\s*=>", seg)
+        if not e:
+            return None
+        st = re.search(r"StatusCode::([A-Z_]+)\b", seg[e.end():e.end() + 600])
+        return codes.get(st.group(1)) if st else None
+
+    for coq, val in (("relay_status_body_error_signed", status_after_failure(fn_body("handle_request_with_signature"), r"\bcollect\w*\(")),
+                     ("relay_status_body_error_exempt", status_after_failure(fn_body("handle_new_http_request"), r"\bconvert_request\("))):
+        if val is None:
+            PINNED.append("%s:%s -> pinned default 400 (the failure arm of the body collection was not located)" % (f, coq))
+            I(coq, 400, f + " -- PINNED DEFAULT: not located in the source, tied by C15's end-to-end run only")
+        else:
+            I(coq, val, f)
+    marker = None
+    fr = fn_body("forward_response") or whole
+    for mm in re.finditer(r"AUTHORIZATION_HEADER\b.{0,200}?HeaderValue::from_static\(\s*(\"(?:[^\"\\]|\\.)*\"|[A-Za-z_][A-Za-z0-9_:]*)\s*\)", fr, flags=re.S):
+        arg = mm.group(1)
+        if arg.startswith('"'):
+            marker = arg[1:-1]
+        else:
+            cm = re.search(r"\b(?:const|static)\s+%s\s*:\s*&(?:'static\s+)?str\s*=\s*\"((?:[^\"\\]|\\.)*)\"" % re.escape(arg.split("::")[-1]), whole)
+            marker = cm.group(1) if cm else None
+        break
+    if marker is None:
+        PINNED.append("%s:response_marker_value -> pinned default 'value' (the marker insert was not located)" % f)
+        S("response_marker_value", "value", f + " -- PINNED DEFAULT: not located in the source, tied by C14's end-to-end run only")
+    else:
+        S("response_marker_value", marker, f)
+    # does the relay path wait for hyper's SendRequest readiness (ready().await / poll_ready) before send_request?
+    # (finding F12, fix commit cdcae0b).  Located anywhere in the relay sources, whatever the struct / field / method is called;
+    # 0 (no such wait anywhere) breaks C14_every_request_relayed and triggers C14's witness search.
+    waits = 0
+    for rel in ("proxy_agent/src/proxy/proxy_connection.rs", "proxy_agent/src/proxy/proxy_server.rs", "proxy_agent/src/common/hyper_client.rs"):
+        try:
+            txt = strip_comments(src(rel)).split("#[cfg(test)]")[0]
+        except OSError:
+            continue
+        if re.search(r"\.ready\(\)\s*\.await|\.poll_ready\(", txt):
+            waits = 1
+    I("upstream_waits_ready", waits, "proxy_agent/src/proxy/proxy_connection.rs")
 
     # ---- key directory restriction (C12): chown uid/gid and chmod mode of acl_directory ----
     # The VALUE is located, not the statement shape: the argument of `Permissions::from_mode(..)`,
